@@ -581,6 +581,38 @@ fn scenario_address(args: &Args, report: &mut Report) {
             }
             report.nontrivial(vcore::fnv(format!("src/{}/{}/{}", k, proxy, canon.is_ipv4()).as_bytes()));
         }
+        // one persistent (keep-alive) connection carrying the announces of several clients, as an upstream connection
+        // of a reverse proxy does: each request is judged by its own header (proxy) / by the connection's peer (direct)
+        if cfg.keep_alive {
+            let bind_ip = IpAddr::V4(Ipv4Addr::new(127, 0, 10, 3));
+            if let Ok(mut c) = Conn::open(tracker.v4, Some(bind_ip)) {
+                let clients: [IpAddr; 4] = ["10.2.0.1".parse().unwrap(), "10.2.0.2".parse().unwrap(), "fd00::22".parse().unwrap(), "10.2.0.3".parse().unwrap()];
+                let start = r.usize(4);
+                for j in 0..3 {
+                    let client = clients[(start + j) % 4];
+                    let port = 40000 + (round * 8 + j) as u16;
+                    let (headers, real_ip) = if proxy {
+                        (if j == 1 { format!("X-Forwarded-For: 5.5.5.5\r\nX-Forwarded-For: 4.4.4.4, {}\r\n", client) } else { format!("X-Forwarded-For: {}\r\n", client) }, client)
+                    } else {
+                        (String::new(), bind_ip)
+                    };
+                    let rp = c.request(&announce_req(&h, port, "started", 1, Some(50), "", &headers), 3000);
+                    report.eval();
+                    if let Err(e) = rp {
+                        report.violation("http.live.announce_failed", "address", format!("request {} on a keep-alive connection: {:?}", j, e), case.clone());
+                        break;
+                    }
+                    let canon = vhttp::canonical_ip(real_ip);
+                    let key = PeerKey { ip: canon, port };
+                    if canon.is_ipv4() {
+                        exp4.insert(key);
+                    } else {
+                        exp6.insert(key);
+                    }
+                    report.nontrivial(vcore::fnv(format!("keepalive/{}/{}/{}", j, proxy, canon.is_ipv4()).as_bytes()));
+                }
+            }
+        }
         // observers of each family
         for v6obs in [false, true] {
             let (bind_ip, target) = if v6obs { (IpAddr::V6(Ipv6Addr::LOCALHOST), tracker.v6) } else { (IpAddr::V4(Ipv4Addr::new(127, 0, 10, 9)), tracker.v4) };
